@@ -78,7 +78,7 @@ Theorem C12_component_decoder_accepts_only_encodings :
 Proof. exact reflect_canonical. Qed.
 
 (* the hypotheses are met by one message of every kind (both address families) *)
-Theorem C12_wf_is_inhabited : Forall wf_msg ex_msgs /\ length ex_msgs = 13%nat.
+Theorem C12_wf_is_inhabited : Forall wf_msg ex_wmsgs /\ length ex_wmsgs = 13%nat.
 Proof. exact (conj ex_msgs_wf eq_refl). Qed.
 
 (* the functions the correspondence check runs are the ones the theorems are about *)
